@@ -60,7 +60,10 @@ TDOPT = [None, 'same-volume', 'other-volume', 'same-volume-existing']
 FALLBACK = [(False, None), (True, None), (False, '1'), (True, '1'), (True, '0'), (True, 'yes')]  # enabled only by the option AND the value 1
 
 
-def scenario(where, top, alt, hk, uid, tdo, fb):
+FIRST = ['alone', 'after-a-file-of-the-home-volume', 'after-a-file-of-another-volume']
+
+
+def scenario(where, top, alt, hk, uid, tdo, fb, first=0):
     mounts = ['/', '/v', '/v/n']
     nodes = [W.d('/h'), W.d('/v/d'), W.d('/v/n/d'), W.d('/r/d'), W.f('/v/keep', 'KEEP', 0o644, 800)]
     env = {'HOME': '/h'}
@@ -143,8 +146,18 @@ def scenario(where, top, alt, hk, uid, tdo, fb):
         args.append('--home-fallback')
     if ev:
         env['TRASH_ENABLE_HOME_FALLBACK'] = ev
+    before_it = []
+    if FIRST[first] == 'after-a-file-of-the-home-volume' and 'HOME' in env:
+        # one invocation, two arguments on (possibly) different volumes: the choice for the second must not depend on the first
+        pre = env['HOME'].rstrip('/') + '/zfirst'
+        nodes.append(W.f(pre, 'FIRST', 0o644, 960))
+        before_it = [pre]
+    elif FIRST[first] == 'after-a-file-of-another-volume':
+        pre = ('/v/n/zfirst' if fvol != '/v/n' else '/v/zfirst')
+        nodes.append(W.f(pre, 'FIRST', 0o644, 961))
+        before_it = [pre]
     world = W.W(mounts=mounts, cwd='/', nodes=nodes)
-    step = C('put', args + ['--', arg], env, uid=UIDS[uid], cwd='/')
+    step = C('put', args + ['--'] + before_it + [arg], env, uid=UIDS[uid], cwd='/')
     return world, step, env, fdir, fvol, tdpath, (hf and ev == '1')
 
 
@@ -197,11 +210,11 @@ def reference(m, env, uid, fvol, top, tdpath, fallback):
     return None
 
 
-def _case(where, top, alt, hk, uid, tdo, fb):
+def _case(where, top, alt, hk, uid, tdo, fb, first=0):
     with rt.untraced():
         rt.begin((WHERE[where], K.TOP_STATES[top], ALT[alt], HOMEK[hk], UIDS[uid], TDOPT[tdo], FALLBACK[fb]))
-        world, step, env, fdir, fvol, tdpath, fallback = scenario(where, top, alt, hk, uid, tdo, fb)
-        label = 'file=%s:home=%s' % (WHERE[where], HOMEK[hk])
+        world, step, env, fdir, fvol, tdpath, fallback = scenario(where, top, alt, hk, uid, tdo, fb, first)
+        label = 'file=%s:home=%s' % (WHERE[where], HOMEK[hk]) + (':' + FIRST[first] if first else '')
         m = W.build_model(world)
         want = reference(m.clone(), env, UIDS[uid], fvol, top, tdpath, fallback)
         m.hook = None
@@ -219,13 +232,13 @@ def _case(where, top, alt, hk, uid, tdo, fb):
             where_now = [p for p, v in W.flatten(after).items() if v[0] == 'l' and v[1] == payload[1]
                          and (p == fdir + '/x' or '/files/' in p)]
         if want is None:
-            if where_now != [fdir + '/x'] or r['exit'] == 0:
+            if where_now != [fdir + '/x'] or (r['exit'] == 0 and not first):
                 return rt.fail('C07:should-fail:' + label, 'no prescribed directory is usable, yet exit=%r and the entry is at %r' % (r['exit'], where_now))
             return rt.ok()
         fac = commands.install_model_backend()
         fac.set_world(m, env, UIDS[uid])
         real_want = fac.path.realpath(want)
-        if len(where_now) != 1 or not where_now[0].startswith(real_want + '/files/') or r['exit'] != 0:
+        if len(where_now) != 1 or not where_now[0].startswith(real_want + '/files/') or (r['exit'] != 0 and not first):
             got_dirs = [p.rsplit('/files/', 1)[0] for p in where_now if '/files/' in p]
             return rt.fail('C07:wrong-dir:%s:alt=%s:tdopt=%s' % (label, ALT[alt], TDOPT[tdo]),
                            'the spec prescribes %s (-> %s); entry is at %r, exit %r, stderr %r' % (want, real_want, where_now, r['exit'], r['err'][-300:]))
@@ -250,6 +263,15 @@ def w_main(where: int, top: int, alt: int, hk: int, uid: int) -> str:
     post: _ == ''
     """
     return _case(rt.sel(where, 8), rt.sel(top, 9), rt.sel(alt, 5), rt.sel(hk, 7), rt.sel(uid, 3), 0, 0)
+
+
+def w_second(where: int, top: int, alt: int, hk: int, first: int) -> str:
+    """
+    pre: PARTITION is None or where == PARTITION
+    pre: 0 <= where < 8 and 0 <= top < 3 and 0 <= alt < 5 and 0 <= hk < 7 and 1 <= first <= 2
+    post: _ == ''
+    """
+    return _case(rt.sel(where, 8), rt.of([0, 1, 2], top), rt.sel(alt, 5), rt.sel(hk, 7), 0, 0, 0, rt.sel(first, 3))
 
 
 def w_opts(where: int, top: int, alt: int, hk: int, tdo: int, fb: int) -> str:
@@ -331,6 +353,9 @@ def obligations(tier):
         CH('W_trashdir_opt_and_fallback', MOD, 'w_opts', timeout=1800, partitions=list(range(8)), engine='W', regime='selector',
            encodes=K.PUT_FUNCS, stubs=K.STUBS, bounds='6 locations x 3 .Trash states x 5 .Trash-uid x 7 home variants x 4 --trash-dir x 6 fallback switches (option x environment value unset/1/0/yes)'),
     ]
+    obs.append(CH('W_second_argument_independent_of_the_first', MOD, 'w_second', timeout=1200, partitions=list(range(8)), engine='W', regime='selector',
+                  encodes=K.PUT_FUNCS, stubs=K.STUBS,
+                  bounds='one invocation with two arguments: a file of the home volume or of another volume first, then the entry; 8 locations x 3 .Trash states x 5 .Trash-uid states x 7 home variants x 2 first arguments'))
     cparts = [(k, p) for k in ((0, 2) if tier == 'quick' else range(5)) for p in range(2)]
     obs.append(CH('W_two_runs_race_for_a_new_trash_dir', MOD, 'w_conc', timeout=1800, partitions=cparts, engine='W', regime='selector',
                   encodes=K.PUT_FUNCS + ['vf.sched replay-stepping'], stubs=K.STUBS,
